@@ -87,9 +87,12 @@ ClientWire(a, v) ==
 \* the zero value of a defaulted attribute is not told from "unset" by the encoders: it travels as it is, is
 \* replaced by the default (bodies) or is left out (the decoder then fills the default in) - the code does one
 \* or the other depending on the location and the type; all three are within the oracle
+\* a required list / map / byte string left unset is sent empty by some encoders (bodies), not at all by others
 WireChoices(a, v) ==
   IF v # Absent /\ a.mode = "default" /\ IsZero(v)
   THEN {ClientWire(a, v), ClientWire(a, DefaultOf(a)), [loc |-> "none", v |-> Absent]}
+  ELSE IF v = Absent /\ a.mode = "required" /\ IsContainer(a)
+  THEN {ClientWire(a, v), [loc |-> a.loc, v |-> EmptyOf(a)]}
   ELSE {ClientWire(a, v)}
 WiresOf(as, vs) == {w \in [DOMAIN as -> UNION {WireChoices(as[i], vs[i]) : i \in DOMAIN as}] : \A i \in DOMAIN as : w[i] \in WireChoices(as[i], vs[i])}
 
